@@ -49,7 +49,7 @@ def _leaves(eg):
             yield x
 
 
-def scn(sym, cov, props, children, body="fall", env=(), eager=False, T=1, J=2, ext="R", exc="plain", tg_shield=False):
+def scn(sym, cov, props, children, body="fall", env=(), eager=False, T=1, J=2, ext="R", exc="plain", tg_shield=False, outer_shield=False):
     import anyio
     from anyio import TASK_STATUS_IGNORED, CancelScope, TaskHandle
 
@@ -172,12 +172,13 @@ def scn(sym, cov, props, children, body="fall", env=(), eager=False, T=1, J=2, e
             raise
         finally:
             r["done"] = True
+            r["end_cycle"] = loop.cycles
             step(key)
 
     out: dict = {}
 
     async def main():
-        outer = CancelScope()
+        outer = CancelScope(shield=outer_shield)  # (shielded: e.g. move_on_after(..., shield=True) around clean-up code)
         host = asyncio.current_task()
         tgref = {}
 
@@ -245,6 +246,28 @@ def scn(sym, cov, props, children, body="fall", env=(), eager=False, T=1, J=2, e
                         if body == "cancel":
                             tg.cancel_scope.cancel()
                             await anyio.sleep(0)
+                        if body == "shield-toggle":
+                            # the host sits in a shielded block while an enclosing scope may get cancelled (its children are
+                            # hit); then it shields the whole group and leaves the block: it is now directly inside a shielded
+                            # scope that nobody cancelled, and must not be interrupted there
+                            with CancelScope(shield=True):
+                                await anyio.sleep(c)
+                                tg.cancel_scope.shield = True
+                                state["toggle_tick"] = loop.time()
+                                state["toggle_cycle"] = loop.cycles
+                                # (a child that ends in cancellation while the group is NOT effectively cancelled makes the group
+                                # cancel itself -- AnyIO's policy for members cancelled out of band; judged only if every child
+                                # had finished, done callbacks included, before the shield was raised)
+                                state["all_children_finished_before_toggle"] = all(r_["done"] and r_.get("end_cycle", 1 << 30) + 1 < loop.cycles for r_ in rec.values()) and len(rec) == n
+                            try:
+                                await anyio.sleep(1)
+                                state["after_toggle"] = "ok"
+                            except asyncio.CancelledError:
+                                state["after_toggle"] = "cancelled"
+                                raise
+                            finally:
+                                state["group_cancelled_by_env"] = any(k == "group" for (k, _c) in state["fired"])
+                                tg.cancel_scope.cancel()  # end the remaining children
                         if body == "shielded-spawn":
                             # the host sits in a shielded section (e.g. cleanup) and starts a task in its group,
                             # which may already be cancelled by then (environment 'group'/'outer' action)
@@ -359,6 +382,12 @@ def scn(sym, cov, props, children, body="fall", env=(), eager=False, T=1, J=2, e
         for k, r in rec.items():
             if r["outcome"] is None:
                 bad("C02", "sibling-not-cancelled-after-failure", k)
+    # ---- C04: shields hold -- nobody cancelled the (now shielded) group scope itself, so the host must not be interrupted in it
+    if body == "shield-toggle" and "after_toggle" in state and not raised and not native and not state.get("group_cancelled_by_env") \
+            and state.get("all_children_finished_before_toggle"):
+        if state["after_toggle"] != "ok":
+            bad("C04", "interrupted-inside-a-shielded-scope-that-nobody-cancelled", {"fired": state["fired"], "shield_set_at_tick": state.get("toggle_tick")})
+        cov.hit("group-shielded-after-enclosing-cancel-hit-its-children", any(k == "outer" for (k, _c) in state["fired"]) and any(r["outcome"] == "cancelled" for r in rec.values()))
     # ---- C03: a task newly created inside an already cancelled scope is interrupted promptly -----------------
     if body == "shielded-spawn" and "spawn_cycle" in state:
         cancelled_by = [cy for (k, cy) in state["fired"] if k in ("group", "outer")]
